@@ -127,6 +127,7 @@ def near_miss_names(tn):
             out += [base[:-1], base[1:], base[:len(base) // 2], base[:len(base) // 2] + " " + base[len(base) // 2:]]
     for nick in NICKNAMES:
         out += [nick, nick.upper(), nick.capitalize(), nick + " "]
+    out += ["Q", "qn", "UM", "Opt", "Vr", "fq", "fm", "q", "um"]      # macro-only table, macro, option, variable, fields
     real = {tn, "M", "E", "P", "X", COUNT_REPS}
     seen, res = set(), []
     for n in out:
@@ -347,7 +348,11 @@ def recipe_text(case, with_old_table=False):
         raise ValueError(shape)
     if with_old_table:
         body += "- object: X\n  nickname: xn\n"
-    return "- object: M\n  nickname: mk\n" + body + "- object: E\n  nickname: en\n"
+    # names the recipe knows that are NOT tables it can create: a table that occurs only inside a macro
+    # nothing includes (Q, nickname qn), the macro itself, an option, a variable, field names
+    extras = ("- macro: UM\n  fields:\n    fq: 1\n  friends:\n    - object: Q\n      nickname: qn\n"
+              "- option: Opt\n  default: 1\n- var: Vr\n  value: 1\n")
+    return extras + "- object: M\n  nickname: mk\n  fields:\n    fm: ${{Opt + Vr}}\n" + body + "- object: E\n  nickname: en\n"
 
 
 # ---------------------------------------------------------------- implementation
